@@ -4,6 +4,7 @@ family 'T' -> C03 (tree), 'N' -> C04 (names/ids), 'V' -> C05 (values), 'R' -> C0
 something).  Every history is abandoned at its first event of any family (states behind a violation
 are unreachable for a correct implementation)."""
 import datetime as dt
+import re
 
 from . import hist, core
 from .model import enc, dec, kind
@@ -178,6 +179,16 @@ class Runner(object):
             if not isinstance(raised, ok_types) and not structural:
                 ev.append(("V", key_of(op, tags, ["refused-with-" + type(raised).__name__]),
                            "%r raised %r instead of ValueError" % (op, raised)))
+        if name in ("set_values", "pextend") and raised is None:
+            # n-tuple Properties: an input item of another arity cannot be converted; it must be refused, not dropped
+            x = world.get(op[1])
+            m = re.match(r"^(\d+)-tuple$", str(getattr(x, "__dict__", {}).get("_dtype")))
+            inp = dec(op[2])
+            if m and isinstance(inp, list) and inp and all(isinstance(i, str) and re.match(r"^\([^()]*\)$", i.strip()) for i in inp):
+                arities = [i.count(";") + 1 for i in inp]
+                if any(a != int(m.group(1)) for a in arities):
+                    ev.append(("V", key_of(op, tags, ["tuple-of-other-arity-not-refused"]),
+                               "%r returned although %r holds an item that is no %s" % (op[0], inp, m.group(0))))
         if name == "set_dtype" and raised is not None and not isinstance(raised, (ValueError, AttributeError)):
             ev.append(("V", key_of(op, tags, ["refused-with-" + type(raised).__name__]), repr(raised)))
         if name == "reassign_values" and raised is not None:
@@ -458,7 +469,7 @@ VALUE_POOL = {
                  dt.datetime(2020, 1, 2, 3, 4, 5, tzinfo=dt.timezone.utc),
                  dt.datetime(2020, 1, 2, 3, 4, 5, 9, tzinfo=dt.timezone(dt.timedelta(hours=2))),
                  "2020-01-02 03:04:05+00:00", "2020-01-02 03:04:05.123"],
-    "2-tuple": ["(1;2)", "(1; 2)", ["1", "2"], [["1", "2"]], "(1;2;3)", "(1)", "1;2", "", None, "[(1;2),(3;4)]",
+    "2-tuple": ["(1;2)", "(1; 2)", ["(1;2)", "(7;8;9)"], ["(7;8;9)", "(1;2)"], ["(3;4)", "(5)"], ["1", "2"], [["1", "2"]], "(1;2;3)", "(1)", "1;2", "", None, "[(1;2),(3;4)]",
                 ["(1;2)", "(3;4)"], [["a", "b"], ["c"]], (1, 2), [(1, 2)], "( a ; b )", "((1;2))", "(;)"],
     "3-tuple": ["(1;2;3)", ["a", "b", "c"], "(1;2)"],
 }
